@@ -5,6 +5,7 @@ package main
 // (check_bce debug output, sites joined on the '[' position) or (2) LinBounds.
 
 import (
+	"time"
 	"bufio"
 	"fmt"
 	"go/token"
@@ -95,7 +96,8 @@ func bidx(c *Ctx, rule string, funcs []*ssa.Function, exempt map[string]string) 
 			continue
 		}
 		c.Analysed[fname(f)] = true
-		lb := &LB{p: c.P, f: f, UsedContracts: map[string]bool{}}
+		t0 := time.Now()
+		lb := &LB{p: c.P, f: f, UsedContracts: map[string]bool{}, ovf: lbOvfMode}
 		cfacts, cdesc := callerFacts(c.P, f)
 		lb.extra = cfacts
 		names := map[ssa.Value]string{}
@@ -145,6 +147,9 @@ func bidx(c *Ctx, rule string, funcs []*ssa.Function, exempt map[string]string) 
 				continue
 			}
 			c.Violated(rule, fname(f), construct, "no dominating guard proves this "+s.Kind+" in bounds for every input (not discharged by the compiler's prove pass nor by LinBounds)", s.Instr.Pos())
+		}
+		if d := time.Since(t0); d > time.Second {
+			dbg("bidx %s took %v", fname(f), d)
 		}
 	}
 	return st
@@ -277,13 +282,19 @@ func callerFacts(p *Prog, f *ssa.Function) ([]cons, string) {
 	}
 	var out []cons
 	var descs []string
+	lbs := map[*ssa.Function]*LB{}
 	proveAt := func(cs ssa.CallInstruction, goals []cons) bool {
 		caller := cs.Parent()
-		lb := &LB{p: p, f: caller, UsedContracts: map[string]bool{}}
-		lb.extra, _ = callerFacts(p, caller)
-		return lb.prove(goals, cs.Block(), nil, map[lvar]lin{}, 0)
+		lb := lbs[caller]
+		if lb == nil {
+			lb = &LB{p: p, f: caller, UsedContracts: map[string]bool{}}
+			lb.extra, _ = callerFacts(p, caller)
+			lbs[caller] = lb
+		}
+		// facts at call sites are conveniences: a shallow search keeps the cost of the failing candidates down
+		return lb.prove(goals, cs.Block(), nil, map[lvar]lin{}, 2)
 	}
-	cands := []int64{0, 1, 3, 7, 8, 15, 16, 31, 32, 63, 64, 127, 128, 255, 256, 511, 1023, 65535}
+	cands := []int64{0, 1, 3, 7, 8, 15, 16, 31, 32, 63, 64, 127, 128, 255, 256, 511, 1023, 65535, 1 << 48}
 	lens := []int64{64, 32, 16, 8, 4, 2, 1}
 	for i, prm := range f.Params {
 		if _, _, ok := intKind(prm.Type()); ok {
@@ -323,7 +334,23 @@ func callerFacts(p *Prog, f *ssa.Function) ([]cons, string) {
 					continue
 				}
 			}
-			for _, k := range cands {
+			// no bound at all (the largest candidate fails somewhere): skip the ladder
+			anyBound := true
+			for _, cs := range sites {
+				lb := &LB{p: p, f: cs.Parent(), UsedContracts: map[string]bool{}}
+				arg := cs.Common().Args[i]
+				if !proveAt(cs, []cons{le(lb.linOf(arg), linConst(cands[len(cands)-1]))}) {
+					anyBound = false
+					break
+				}
+			}
+			for ci, k := range cands {
+				if !anyBound {
+					if ci > 0 {
+						break
+					}
+					k = cands[len(cands)-1]
+				}
 				all := true
 				for _, cs := range sites {
 					lb := &LB{p: p, f: cs.Parent(), UsedContracts: map[string]bool{}}
